@@ -1468,6 +1468,44 @@ func ruleReadPure(c *Ctx) []Obligation {
 					fld = "map:" + fieldKey(owner, f)
 				}
 				nW++
+				// a store through a pointer parameter writes what the callers hand in the address of: one write per
+				// field so addressed (`e.part(&e.RPC.Input, …)`, `e.part(&e.RPC.Output, …)`)
+				if p, isP := addr.(*ssa.Parameter); isP && fld == "*" {
+					var flds []string
+					if node := c.Graph().Nodes[fn]; node != nil {
+						idx := paramIndex(fn, p)
+						for _, e := range node.In {
+							if e.Caller.Func.Synthetic != "" || e.Site == nil || e.Site.Common().StaticCallee() != fn || idx < 0 || idx >= len(e.Site.Common().Args) {
+								continue
+							}
+							if fa, isFA := e.Site.Common().Args[idx].(*ssa.FieldAddr); isFA {
+								if owner, f, _ := fieldOf(fa); f != nil {
+									flds = append(flds, fieldKey(owner, f))
+								}
+							} else {
+								flds = nil
+								break
+							}
+						}
+					}
+					sort.Strings(flds)
+					if len(flds) > 0 {
+						for _, one := range dedupe(flds) {
+							base := fmt.Sprintf("%s ⇒ %s: writes %s", c.FnName(api), c.FnName(c.inlineRoot(fn)), one)
+							seen[base]++
+							con := base
+							if seen[base] > 1 {
+								con = fmt.Sprintf("%s #%d", base, seen[base])
+							}
+							if why, okj := jget("readJustified", readJustified, base); okj {
+								obs = append(obs, just(R, con, c.InstrPos(in), why))
+							} else {
+								obs = append(obs, bad(R, con, c.InstrPos(in), "a read-only query writes to a shared object without a mutex: two goroutines querying one processed set race"))
+							}
+						}
+						return
+					}
+				}
 				base := fmt.Sprintf("%s ⇒ %s: writes %s", c.FnName(api), c.FnName(c.inlineRoot(fn)), fld)
 				seen[base]++
 				con := base
